@@ -25,7 +25,7 @@ type Cmd struct {
 	Para    bool       `json:"para,omitempty"`
 	Plugins string     `json:"plugins,omitempty"`
 	Items   [][]TxSpec `json:"items,omitempty"`
-	Mode    string     `json:"mode,omitempty"` // "exec" | "connect"
+	Mode    string     `json:"mode,omitempty"` // "exec" | "connect" | "connectpeer"
 	Reps    int        `json:"reps,omitempty"`
 	Salt    int64      `json:"salt,omitempty"`
 	Gmp     int        `json:"gmp,omitempty"`
@@ -115,8 +115,8 @@ func childMain(env *core.Env, args []string) int {
 						send(&Reply{Err: "build: " + err.Error()})
 						return
 					}
-					if c.Mode == "connect" && i == reps-1 {
-						rep.Outs = append(rep.Outs, rig.Connect(blk, fee))
+					if (c.Mode == "connect" || c.Mode == "connectpeer") && i == reps-1 {
+						rep.Outs = append(rep.Outs, rig.Connect(blk, fee, c.Mode == "connectpeer"))
 					} else {
 						o, _ := rig.Exec(blk, fee)
 						rep.Outs = append(rep.Outs, o)
